@@ -5,6 +5,7 @@ package vmodel
 import (
 	"fmt"
 	"sort"
+	"strings"
 
 	"verifh/vrep"
 )
@@ -227,9 +228,32 @@ func (m *setMC[S, E]) observe(r *[nregs]S, s mstate) string {
 		if a.Empty(r[i]) != (n == 0) {
 			return fmt.Sprintf("r%d.Empty()=%v, model size %d", i, a.Empty(r[i]), n)
 		}
+		// Sorted() must be exactly the model's elements in order (no duplicate, nothing missing)
 		so := a.Sorted(r[i])
-		if len(so) != n || !sort.SliceIsSorted(so, func(x, y int) bool { return a.Less(so[x], so[y]) }) {
-			return fmt.Sprintf("r%d.Sorted()=%v not the sorted element list", i, so)
+		var wantSorted []E
+		for e := range a.Universe {
+			if s[i]&(1<<uint(e)) != 0 {
+				wantSorted = append(wantSorted, a.Universe[e])
+			}
+		}
+		sort.Slice(wantSorted, func(x, y int) bool { return a.Less(wantSorted[x], wantSorted[y]) })
+		if len(so) != len(wantSorted) {
+			return fmt.Sprintf("r%d.Sorted()=%v, model %v", i, so, wantSorted)
+		}
+		for k := range so {
+			if so[k] != wantSorted[k] {
+				return fmt.Sprintf("r%d.Sorted()=%v, model %v", i, so, wantSorted)
+			}
+		}
+		// the caller may do what it likes with the returned slices
+		for k := range so {
+			so[k] = a.Fresh
+		}
+		if again := a.Sorted(r[i]); len(again) != len(wantSorted) || (len(again) > 0 && again[0] != wantSorted[0]) {
+			return fmt.Sprintf("r%d.Sorted() hands out its internal slice: overwriting the result changed the next answer to %v", i, again)
+		}
+		if st := a.String(r[i]); strings.Count(st, ",") != maxInt(0, n-1) {
+			return fmt.Sprintf("r%d.String()=%s does not list %d elements", i, st, n)
 		}
 		for j := 0; j < nregs; j++ {
 			if a.Equal(r[i], r[j]) != (s[i] == s[j]) {
@@ -291,6 +315,8 @@ func (m *setMC[S, E]) fresh() *[nregs]S {
 // transition executed on real objects rebuilt by replaying the shortest path.
 func CheckSets[S any, E comparable](c *vrep.Ctx, api *SetAPI[S, E]) {
 	maxList := c.Pick(2, 2)
+	observeOnPath := c.Param("observe", "path") == "path"
+	c.Bound("observers_called_after_every_step_of_the_history", observeOnPath)
 	m := &setMC[S, E]{api: api, c: c, ops: setOps(len(api.Universe), maxList)}
 	c.R.Rule = "explicit-state BFS over 3 set registers on a small universe; a state is the triple of register contents, a transition is one real method call (Insert/Delete with every element list up to length 2, New, Copy, Union/Intersect/Difference/Unique with every operand pair incl. nil); after every transition all observers (Elements, Sorted, String, Len, Empty, Contains, Equal, Disjoint) are compared with a bitmask model and the result register is mutated to detect aliasing; non-trivial = distinct (state, operation) pairs whose operation changed or produced a register"
 	c.Bound("universe", len(api.Universe))
@@ -302,6 +328,11 @@ func CheckSets[S any, E comparable](c *vrep.Ctx, api *SetAPI[S, E]) {
 		r := m.fresh()
 		var s mstate
 		for step, oi := range c.Replay.Choices {
+			if !observeOnPath && step < len(c.Replay.Choices)-1 {
+				m.applyReal(m.ops[oi], r)
+				s = m.ops[oi].applyModel(s)
+				continue
+			}
 			if msg := m.step(r, &s, m.ops[oi]); msg != "" {
 				c.Violate(c.Replay.Key, fmt.Sprintf("step %d %v: %s", step, m.ops[oi], msg), nil, msg)
 				return
@@ -337,6 +368,13 @@ func CheckSets[S any, E comparable](c *vrep.Ctx, api *SetAPI[S, E]) {
 				for _, pi := range path {
 					m.applyReal(m.ops[pi], r)
 					s = m.ops[pi].applyModel(s)
+					if observeOnPath {
+						// observers are calls too: a history in which Sorted/Elements/String/... ran
+						// between the mutations is a different history from one in which they did not
+						if msg := m.observe(r, s); msg != "" {
+							panic("prefix that passed before fails on rebuild: " + msg)
+						}
+					}
 				}
 				if s != st {
 					panic("model replay mismatch")
@@ -415,4 +453,11 @@ func (m *setMC[S, E]) step(r *[nregs]S, s *mstate, op setOp) string {
 		m.api.Delete(r[op.k], m.api.Fresh)
 	}
 	return ""
+}
+
+func maxInt(a, b int) int {
+	if a > b {
+		return a
+	}
+	return b
 }
